@@ -278,6 +278,33 @@ func (w *W) runLife(a *inst.Inst, ctx *explore.Ctx, totalSteps *int, put func(a 
 		}
 		return nil
 	}
+	loopFirsts := 0
+	bgPending := false
+	// book: bookkeeping when the loop goroutine is seen at a new park
+	book := func(loop *sched.P) {
+		if loop.Seq() == lastSeq {
+			return
+		}
+		lastSeq = loop.Seq()
+		switch loop.Point {
+		case "sleep.lmdbpoll":
+			if activity || bgPending {
+				idle = 0
+			} else {
+				idle++
+			}
+			activity = false
+		case "sync.beforeLoad":
+			if pending > 0 {
+				pending--
+			}
+		case "sync.afterLoad":
+			activity = true
+			if w.ownLoaded {
+				w.ownMerged = true
+			}
+		}
+	}
 	s.Policy = func(s *sched.Sched, parked []*sched.P) []sched.Choice {
 		var loop, recvSleep, retrySleep *sched.P
 		var background []*sched.P
@@ -303,11 +330,17 @@ func (w *W) runLife(a *inst.Inst, ctx *explore.Ctx, totalSteps *int, put func(a 
 			}
 			return []sched.Choice{{Label: l, P: p, Answer: ans}}
 		}
+		bgPending = len(background) > 0
 		if len(background) > 0 {
 			p := background[0]
 			out := one(p, 0)
 			if len(p.Answers) == 2 && p.Answers[1] == "fail" {
 				out = append(out, sched.Choice{Label: p.Key() + "=fail", Cost: 1, P: p, Answer: 1})
+			}
+			// the loop is faster than the background work (e.g. the own snapshot is still downloading when the loop decides about an upload)
+			if loop != nil && !strings.HasPrefix(loop.Point, "st.") && loop.Point != "start" && loopFirsts < 3 {
+				lp := loop
+				out = append(out, sched.Choice{Label: "loop-runs-first:" + loop.Key(), Cost: 1, Act: &sched.Action{Do: func() { loopFirsts++; book(lp); s.Release(lp, 0) }}})
 			}
 			return out
 		}
@@ -315,18 +348,10 @@ func (w *W) runLife(a *inst.Inst, ctx *explore.Ctx, totalSteps *int, put func(a 
 			return nil
 		}
 		arrived := loop.Seq() != lastSeq
-		lastSeq = loop.Seq()
+		book(loop)
 		w.lastEvent = loop.Point
 		switch {
 		case loop.Point == "sleep.lmdbpoll":
-			if arrived {
-				if activity {
-					idle = 0
-				} else {
-					idle++
-				}
-				activity = false
-			}
 			if retrySleep != nil {
 				// a download failed: the storage poll (1 s) fires before the retry timer (5 s)
 				idle = 0
@@ -351,17 +376,7 @@ func (w *W) runLife(a *inst.Inst, ctx *explore.Ctx, totalSteps *int, put func(a 
 			}
 			return out
 		}
-		if arrived {
-			if loop.Point == "sync.beforeLoad" && pending > 0 {
-				pending--
-			}
-			if loop.Point == "sync.afterLoad" {
-				activity = true
-				if w.ownLoaded {
-					w.ownMerged = true
-				}
-			}
-		}
+		_ = arrived
 		out := one(loop, 0)
 		if w.life+1 < cfg.MaxLives {
 			for _, how := range []string{"keep", "empty"} {
